@@ -4,6 +4,7 @@ import BeyondVerif.Generated.FrameFormulasR
 import BeyondVerif.Model.NodeSpec
 import BeyondVerif.Model.Chain
 import BeyondVerif.Generated.Graphs
+import BeyondVerif.Model.Memo
 noncomputable section
 namespace BeyondVerif.R
 open BeyondVerif.NumReal
@@ -44,6 +45,8 @@ structure DateArgs where
   x10 : R       -- iau2010._xysxy2(date)  (arcsec)
   y10 : R
   sxy10 : R
+  eps106 : R    -- iau1980._nutation(date, False, 106)[0]  (degrees): part of the memoized triple, like dpsi106 / deps106
+  eps4 : R      -- iau1980._nutation(date, False, 4)[0]
 
 /-! ## IAU 1980 -/
 
@@ -61,17 +64,17 @@ def nutSeries80 (ttt : R) (rows : List (List R)) : R × R :=
 
 def epsBar80 (ttt : R) : R := (nutArgs80 ttt).headD 0
 
-/-- `iau1980.nutation(date, eop_correction=False)` given the series sums (degrees) -/
-def nutation80 (ttt dpsi deps : R) : M3 :=
-  let epsilon_bar := deg2rad (epsBar80 ttt)
+/-- `iau1980.nutation(date, eop_correction=False)` given the triple `_nutation` returned (degrees) -/
+def nutation80 (epsbar dpsi deps : R) : M3 :=
+  let epsilon_bar := deg2rad epsbar
   let delta_psi := deg2rad dpsi
   let delta_eps := deg2rad deps
   let epsilon := epsilon_bar + delta_eps
   M3.mul (M3.mul (rot1 (-epsilon_bar)) (rot3 delta_psi)) (rot1 epsilon)
 
-/-- `iau1980.equinox` (degrees) -/
-def equinox80 (ttt dpsi day : R) (kinematic : Bool) : R :=
-  let equin := dpsi * (3600.0 : R) * cos (deg2rad (epsBar80 ttt))
+/-- `iau1980.equinox` (degrees), given the (ε̄, Δψ) `_nutation` returned -/
+def equinox80 (ttt epsbar dpsi day : R) (kinematic : Bool) : R :=
+  let equin := dpsi * (3600.0 : R) * cos (deg2rad epsbar)
   let equin :=
     if day ≥ (50506 : R) ∧ kinematic = true then
       let om_m := (125.04455501 : R) - ((5 : R) * (360.0 : R) + (134.1361851 : R)) * ttt + (0.0020756 : R) * powi ttt 2 + (2.139e-6 : R) * powi ttt 3
@@ -81,7 +84,7 @@ def equinox80 (ttt dpsi day : R) (kinematic : Bool) : R :=
 
 /-- `iau1980._sideral(date, 0.0, "apparent", False, 106)` (degrees in [0, 360)) -/
 def gastDeg80 (D : DateArgs) : R :=
-  let theta := gmstDeg80 D.tut1 + equinox80 D.ttt D.dpsi106 D.day true
+  let theta := gmstDeg80 D.tut1 + equinox80 D.ttt D.eps106 D.dpsi106 D.day true
   let theta := theta + (0.0 : R)
   fmod theta (360.0 : R)
 
@@ -151,9 +154,9 @@ def providerNames : List (String × String) :=
    ("TIRF", "CIRF"), ("CIRF", "GCRF"), ("G50", "EME2000"), ("GCRF", "EME2000")]
 
 def edgeBuiltin (D : DateArgs) (a b : String) : Option T6 :=
-  if a = "TEME" ∧ b = "TOD" then some (expand (rot3 (-(deg2rad (equinox80 D.ttt D.dpsi4 D.day false)))) none)
+  if a = "TEME" ∧ b = "TOD" then some (expand (rot3 (-(deg2rad (equinox80 D.ttt D.eps4 D.dpsi4 D.day false)))) none)
   else if a = "PEF" ∧ b = "TOD" then some (expand (rot3 (deg2rad (-(gastDeg80 D)))) (some (vecOf (rate80 D.lod)).neg))
-  else if a = "TOD" ∧ b = "MOD" then some (expand (nutation80 D.ttt D.dpsi106 D.deps106) none)
+  else if a = "TOD" ∧ b = "MOD" then some (expand (nutation80 D.eps106 D.dpsi106 D.deps106) none)
   else if a = "MOD" ∧ b = "EME2000" then some (expand (precession80 D.ttt) none)
   else if a = "ITRF" ∧ b = "PEF" then some (expand (polar80 D) none)
   else if a = "ITRF" ∧ b = "TIRF" then some (expand (polar10 D) none)
@@ -246,5 +249,74 @@ def frameTransform (D : DateArgs) (names : List String) (hist : List (Nat × Nat
     let x := m.apply p v
     some (x.1.add off.1, x.2.add off.2)
   | _, _ => none
+
+/-! ## histories of calls: the memo of `iau1980._nutation` (beyond/utils/memoize.py, Model/Memo.lean)
+
+The only memoized function of beyond/frames whose value depends on the date is `_nutation(date, eop_correction, terms)`; the
+providers call it as `_nutation(date, False, 106)` (PEF_to_TOD through `equinox`, TOD_to_MOD) and `_nutation(date, False, 4)`
+(TEME_to_TOD).  Its key is `str((date, False, terms))`: the *text* of the date (calendar instant in the scale of the date, and the
+name of the scale) and the number of terms.  Everything else a conversion reads (UT1, polar motion, LOD, dX/dY, the CIO series,
+precession, the frame graph, the state) is recomputed at every call. -/
+
+/-- the triple `_nutation(date, False, terms)` returns (degrees) -/
+structure Nut where
+  eps : R
+  dpsi : R
+  deps : R
+
+def nut106 (D : DateArgs) : Nut := ⟨D.eps106, D.dpsi106, D.deps106⟩
+def nut4 (D : DateArgs) : Nut := ⟨D.eps4, D.dpsi4, D.deps4⟩
+
+/-- the date arguments with the two nutation triples replaced by the ones the memo handed out -/
+def withNut (D : DateArgs) (a b : Nut) : DateArgs :=
+  { D with eps106 := a.eps, dpsi106 := a.dpsi, deps106 := a.deps, eps4 := b.eps, dpsi4 := b.dpsi, deps4 := b.deps }
+
+/-- `_nutation(date, False, len rows)` computed from scratch: a function of the TT century of the date only -/
+def nutOf (ttt : R) (rows : List (List R)) : Nut := ⟨epsBar80 ttt, (nutSeries80 ttt rows).1, (nutSeries80 ttt rows).2⟩
+
+/-- one `Orientation.convert_to(date, new_orient)` request: `text` identifies `repr(date)`; `D` is what the providers read from the
+date when nothing is cached — computed from the instant and the EOP record attached to the date — `D.eps106 … D.deps4` being
+`_nutation(date, False, 106 / 4)` computed from scratch (`nutOf D.ttt rows`) -/
+structure Call where
+  text : Nat
+  D : DateArgs
+  hist : List (Nat × Nat)
+  extras : List Extra
+  a : Nat
+  b : Nat
+
+/-- what the call returns when nothing was computed before: a function of the call alone -/
+def callPure (names : List String) (c : Call) : Option T6 := orientConvert c.D names c.hist c.extras c.a c.b
+
+/-- `_nutation._cache`: (text of the date, terms) ↦ triple -/
+abbrev NutMemo := List ((Nat × Nat) × Nut)
+
+/-- `memoizer` for `_nutation`: the argument is the pair (key, what the bare function would compute now) -/
+def memoGet (m : NutMemo) (k : Nat × Nat) (v : Nut) : Nut × NutMemo := Memo.call Prod.fst Prod.snd m (k, v)
+
+/-- which of the two memo keys the loop of `convert_to` reaches: (`terms = 106`, `terms = 4`) — decided by the edges on the route -/
+def touches (names : List String) (hist : List (Nat × Nat)) (a b : Nat) : Bool × Bool :=
+  let fuel := hist.length + 3
+  match Node.build fuel hist with
+  | none => (false, false)
+  | some g =>
+    match Node.path fuel g a b with
+    | .ok p =>
+      let nm := fun (i : Nat) => names.getD i ""
+      let has := fun (x y : String) => (Node.steps p).any (fun st => (nm st.1 == x && nm st.2 == y) || (nm st.1 == y && nm st.2 == x))
+      (has "PEF" "TOD" || has "TOD" "MOD", has "TEME" "TOD")
+    | _ => (false, false)
+
+/-- one call inside a process whose `_nutation` memo is `m`: the triples come from the memo where the route consults it -/
+def sessionStep (names : List String) (m : NutMemo) (c : Call) : Option T6 × NutMemo :=
+  let t := touches names c.hist c.a c.b
+  let r106 := if t.1 then memoGet m (c.text, 106) (nut106 c.D) else (nut106 c.D, m)
+  let r4 := if t.2 then memoGet r106.2 (c.text, 4) (nut4 c.D) else (nut4 c.D, r106.2)
+  (orientConvert (withNut c.D r106.1 r4.1) names c.hist c.extras c.a c.b, r4.2)
+
+/-- the results of a history of calls -/
+def sessionRun (names : List String) : NutMemo → List Call → List (Option T6)
+  | _, [] => []
+  | m, c :: cs => (sessionStep names m c).1 :: sessionRun names (sessionStep names m c).2 cs
 
 end BeyondVerif.R
